@@ -11,7 +11,8 @@ REQUIRED = ["Sun.get_equinox_solstice", "Sun.equation_of_time", "Sun.apparent_ge
 THEOREMS = ["C14_jde2000", "C14_eot_closed_form", "C14_eot_reduced", "C14_eot_bound", "C14_eot_seconds", "C14_eot_recompose",
             "C14_season_first_query", "C14_season_year_range", "C14_season_type",
             "C14_season_exit_step", "C14_season_loop_invariant", "C14_season_order", "C14_season_year_length", "C14_season_joint",
-            "C14_sunrise_identity"]
+            "C14_sunrise_identity", "C14_rise_set_closed_form", "C14_rise_set_altitude", "C14_rise_set_order",
+            "C14_rise_set_polar", "C14_trts_none", "C14_trts_passes_guard", "C14_never_crosses"]
 PROOF_TIMEOUT = {"quick": 1500, "thorough": 2400}
 EXHAUSTIVE = False
 MANIFEST = {
@@ -39,8 +40,13 @@ CLAUSES = {
     "loop invariant by induction on the fuel: with the Sun position abstracted as lam(jde) on a step-closed set of instants, any result other than OutOfFuel is an Epoch t with |58 sin(k*90 - lam(t))| <= 2.5e-6":
         "proved [ideal, pyrun per season/table + induction: C14_season_loop_invariant]",
     "apparent longitude at the returned instant = 0/90/180/270 within 1e-5 deg, not the antipode; termination": "unproved (searched): VSOP numerics",
-    "sunrise equation: cos w0 = (sin h0 - sin phi sin delta)/(cos phi cos delta) puts the altitude formula at h0 at hour angle +-w0":
-        "proved [spec, trig identity: C14_sunrise_identity] (bridging to the generated rise_set: unproved, searched)",
+    "generated Epoch.rise_set = Epoch(jt -+ degrees(acos c)/360), c = (sin h0 - sin phi sin delta)/(cos phi cos delta) with h0 = -0.83 - 2.076 sqrt(height)/60 deg as coded (get_date, Epoch constructor, leap_seconds, the two float %360 abstracted)":
+        "proved [ideal, pyrun with callees abstracted: C14_rise_set_closed_form]",
+    "at hour angle +-w0 the altitude formula gives exactly the standard altitude for the algorithm's own declination; rise < transit < set when cos w0 < 1":
+        "proved [ideal/spec: C14_rise_set_altitude (bridges the generated quotient to C14_sunrise_identity), C14_rise_set_order]",
+    "ValueError beyond the limit Angle(66,33,0) = 66.55 deg as coded": "proved [ideal: C14_rise_set_polar]",
+    "times_rise_transit_set returns (None, None, None) exactly when |cos H0| > 1":
+        "proved [ideal: C14_trts_none (if), C14_trts_passes_guard (only if: with |cos H0| <= 1 the next statement after the guard is reached), C14_never_crosses (no hour angle reaches h0)]",
     "rise/set within 1 deg of -0.8333 - dip against VSOP Sun + sidereal time; rise < transit < set; ValueError beyond 66d33'":
         "unproved (searched); the 1 deg bound is refuted on the tree of 2026-10-01 near the ends of 1900-2100: witness "
         "Epoch(2095,3,20).rise_set(Angle(-66.4), Angle(149.22583329129634), 2261.2834322062554) sunset 1.06 deg off "
@@ -52,7 +58,7 @@ CLAUSES = {
 def proof_files(tier):
     return ["C14_tac.v", "C14_angle.v", "C14_jde.v", "C14_eot.v", "C14_angle2.v", "C14_season.v",
             "C14_sA0.v", "C14_sA1.v", "C14_sA2.v", "C14_sA3.v", "C14_sB0.v", "C14_sB1.v", "C14_sB2.v", "C14_sB3.v", "C14_season_all.v",
-            "C14_poly.v", "C14_rise.v", "C14.v"]
+            "C14_poly.v", "C14_rise.v", "C14_riseset.v", "C14_trts.v", "C14.v"]
 
 
 # ------------------------------------------------------------------ correspondence
